@@ -57,6 +57,16 @@ def err_info(e):
 
 
 def _dispatch(job):
+    """Run one task under an alarm.  The alarm can also fire between the end of the task and its cancellation (or inside an
+    except clause): every such late _Timeout is turned into the same inconclusive result instead of escaping the worker."""
+    try:
+        return _dispatch_inner(job)
+    except _Timeout:
+        signal.alarm(0)
+        return {"error": "Timeout", "problog_error": False, "inconclusive": True}
+
+
+def _dispatch_inner(job):
     fname, kwargs, timeout = job
     _init()
     from . import pl_tasks
@@ -76,6 +86,8 @@ def _dispatch(job):
     except BaseException as e:  # noqa
         try:
             return err_info(e)
+        except _Timeout:
+            raise
         except BaseException as e2:  # noqa
             return {"error": type(e).__name__, "problog_error": False, "msg": str(e)[:300]}
     finally:
